@@ -87,7 +87,7 @@ Definition conn_handler (ts : tstate) (ptype : Z) (app_ok : bool) : tstate * lis
   else (ts, [THandler ptype]).
 
 Section Loop.
-Variable sig_ok : list Z -> list Z -> list Z -> bool.
+Variable sig_ok : list Z -> list Z -> list Z -> vres.
 Variable sid : list Z.
 
 Definition loop_step (ts : tstate) (p : packet) (e : env) : tstate * list tout :=
